@@ -159,3 +159,48 @@ M("C19", "value-key-name", DT, "def _by_type_code(typ: ElementaryDataType):\n   
 M("C19", "getitem-get", MAP, "val = cls._members_.__getitem__(_key(item))", "val = cls._members_.get(_key(item))", ["D19.2"])
 T("C19", "inline-key", MAP, "        val = cls._members_.get(_key(item), default)", "        val = cls._members_.get(item.lower() if isinstance(item, str) else item, default)")
 T("C19", "hex-case", SV, '    read_tag = b"\\x4C"', '    read_tag = b"\\x4c"')
+
+# ------------------------------------------------------------------ C10
+M("C10", "undecorate-slc-read", SLC, "    @with_forward_open\n    def read(self, *addresses: str)", "    def read(self, *addresses: str)", ["D10.1"])
+M("C10", "undecorate-logix-write", LX, "    @with_forward_open\n    def write(\n", "    def write(\n", ["D10.1"])
+M("C10", "generic-no-guard", CD, "        if connected:\n            with_forward_open(lambda _: None)(self)\n", "", ["D10.1"])
+M("C10", "guard-call-when-not-opened", CD, "        if not opened:\n            msg = f\"Target did not connected. {func.__name__} will not be executed.\"\n            raise ResponseError(msg)\n        return func(self, *args, **kwargs)", "        if not opened:\n            msg = f\"Target did not connected. {func.__name__} will not be executed.\"\n            logger.error(msg)\n        return func(self, *args, **kwargs)", ["D10.2"])
+M("C10", "guard-no-size-500", CD, "                self._cfg[\"extended forward open\"] = False\n                self._cfg[\"connection_size\"] = 500\n", "                self._cfg[\"extended forward open\"] = False\n", ["D10.2"])
+M("C10", "guard-no-flag-clear", CD, "                self._cfg[\"extended forward open\"] = False\n                self._cfg[\"connection_size\"] = 500\n", "                self._cfg[\"connection_size\"] = 500\n", ["D10.2"])
+M("C10", "guard-opened-true-default", CD, "        opened = False\n        if self._cfg[\"extended forward open\"]:\n            logger.info(\"Attempting", "        opened = True\n        if self._cfg[\"extended forward open\"]:\n            logger.info(\"Attempting", ["D10.2"])
+M("C10", "connected-before-response", CD, "        if response:\n            self._target_cid = response.value[:4]\n            self._target_is_connected = True\n", "        self._target_is_connected = True\n        if response:\n            self._target_cid = response.value[:4]\n", ["D10.3"])
+M("C10", "no-session-check", CD, "        if self._session == 0:\n            raise CommError(\"A session must be registered before a Forward Open\")\n\n        init_net_params", "        init_net_params", ["D10.3"])
+M("C10", "close-no-session-reset", CD, "        self._target_is_connected = False\n        self._session = 0\n        self._connection_opened = False\n\n        if errs:", "        self._target_is_connected = False\n        self._connection_opened = False\n\n        if errs:", ["D10.4"])
+M("C10", "close-resets-in-try", CD, "        try:\n            if self._sock:\n                self._sock.close()\n        except Exception as err:\n            errs.append(err)\n            self.__log.exception(\"Error closing socket connection\")\n\n        self._sock = None\n        self._target_is_connected = False", "        try:\n            if self._sock:\n                self._sock.close()\n            self._target_is_connected = False\n        except Exception as err:\n            errs.append(err)\n            self.__log.exception(\"Error closing socket connection\")\n\n        self._sock = None", ["D10.4"])
+M("C10", "close-except-commerror", CD, "                self._un_register_session()\n        except Exception as err:", "                self._un_register_session()\n        except CommError as err:", ["D10.4"])
+M("C10", "close-unregister-first", CD, "            if self._target_is_connected:\n                self._forward_close()\n            if self._session != 0:\n                self._un_register_session()", "            if self._session != 0:\n                self._un_register_session()\n            if self._target_is_connected:\n                self._forward_close()", ["D10.5"])
+M("C10", "exit-no-close", CD, "        try:\n            self.close()\n        except CommError:", "        try:\n            if not exc_type:\n                self.close()\n        except CommError:", ["D10.6"])
+M("C10", "send-except-oserror", CD, "            self._sock.send(message)\n        except Exception as err:", "            self._sock.send(message)\n        except OSError as err:", ["D10.7"])
+M("C10", "fo-pad-length", CD, "route_path = PADDED_EPATH.encode(self._cfg[\"cip_path\"] + MSG_ROUTER_PATH, length=True)", "route_path = PADDED_EPATH.encode(self._cfg[\"cip_path\"] + MSG_ROUTER_PATH, length=True, pad_length=True)", ["D10.8"])
+M("C10", "fo-mask-ff", CD, "(self.connection_size & 0x01FF) | init_net_params", "(self.connection_size & 0x00FF) | init_net_params", ["D10.8"])
+M("C10", "fo-swap-vid-csn", CD, "            self._cfg[\"cid\"],\n            self._cfg[\"csn\"],\n            self._cfg[\"vid\"],", "            self._cfg[\"cid\"],\n            self._cfg[\"vid\"],\n            self._cfg[\"csn\"],", ["D10.8"])
+M("C10", "urandom-2", CD, "self._cfg[\"vsn\"] = urandom(4)", "self._cfg[\"vsn\"] = urandom(2)", ["D10.8"])
+M("C10", "open-true-without-register", CD, "            if self._register_session() is None:\n                self.__log.error(\"Session not registered\")\n                return False\n            return True", "            if self._register_session() is None:\n                self.__log.error(\"Session not registered\")\n            return True", ["D10.3"])
+M("C10", "fc-flag-always", CD, "        if response:\n            self._target_is_connected = False\n            self.__log.info(\"Forward Close succeeded.\")", "        self._target_is_connected = False\n        if response:\n            self.__log.info(\"Forward Close succeeded.\")", ["D10.5"])
+T("C10", "session-falsy", CD, "            if self._session != 0:\n                self._un_register_session()", "            if self._session:\n                self._un_register_session()")
+T("C10", "reorder-resets", CD, "        self._sock = None\n        self._target_is_connected = False\n        self._session = 0", "        self._session = 0\n        self._target_is_connected = False\n        self._sock = None")
+
+# ------------------------------------------------------------------ C11
+M("C11", "swap-session-status", PB, "                    UDINT.encode(session_id),  # Session Handle UDINT\n                    b\"\\x00\\x00\\x00\\x00\",  # Status UDINT", "                    b\"\\x00\\x00\\x00\\x00\",  # Status UDINT\n                    UDINT.encode(session_id),  # Session Handle UDINT", ["D11.1"])
+M("C11", "length-plus-24", PB, "self._encap_command, len(common), session_id, context, option", "self._encap_command, len(common) + 24, session_id, context, option", ["D11.2"])
+M("C11", "length-of-msg", PB, "self._encap_command, len(common), session_id, context, option", "self._encap_command, len(msg), session_id, context, option", ["D11.2"])
+M("C11", "item-count-1", PB, 'b"\\x02\\x00",  # Item count', 'b"\\x01\\x00",  # Item count', ["D11.3"])
+M("C11", "addr-len-of-message", PB, "else UINT.encode(len(addr_data)) + addr_data", "else UINT.encode(len(message)) + addr_data", ["D11.3"])
+M("C11", "data-len-usint", PB, "                UINT.encode(len(message)),\n                message,", "                USINT.encode(len(message)),\n                message,", ["D11.3"])
+M("C11", "unit-data-b2", PE, "    _message_type = DataItem.connected\n    _address_type = AddressItem.connection", "    _message_type = DataItem.unconnected\n    _address_type = AddressItem.connection", ["D11.4"])
+M("C11", "connected-code", PE, '    connected = b"\\xb1\\x00"', '    connected = b"\\xb3\\x00"', ["D11.4"])
+M("C11", "append-before-super", PL, "    def _setup_message(self):\n        super()._setup_message()\n        self._msg += [Services.multiple_service_request, self.request_path]", "    def _setup_message(self):\n        self._msg += [Services.multiple_service_request, self.request_path]\n        super()._setup_message()", ["D11.5"])
+M("C11", "session-zero", CD, '"session_id": self._session,', '"session_id": 0,', ["D11.6"])
+M("C11", "cid-from-4-8", CD, "self._target_cid = response.value[:4]", "self._target_cid = response.value[4:8]", ["D11.6"])
+M("C11", "rr-keeps-addr", PE, "return super()._build_common_packet_format(message, addr_data=None)", "return super()._build_common_packet_format(message, addr_data=addr_data)", ["D11.3"])
+M("C11", "unregister-expects-reply", PE, "    response_class = UnRegisterSessionResponsePacket\n    no_response = True", "    response_class = UnRegisterSessionResponsePacket\n    no_response = False", ["D11.4"])
+M("C11", "context-7", CD, '"context": b"_pycomm_",', '"context": b"pycomm_",', ["D11.1"])
+M("C11", "status-nonzero", PB, 'b"\\x00\\x00\\x00\\x00",  # Status UDINT', 'b"\\x01\\x00\\x00\\x00",  # Status UDINT', ["D11.1"])
+M("C11", "msg-insert-front", PC, "        self._msg += [self.service, req_path, self.request_data]", "        self._msg.insert(0, self.service)\n        self._msg += [req_path, self.request_data]", ["D11.5"])
+T("C11", "cpf-sum", PB, "        return b\"\".join(\n            [\n                b\"\\x00\\x00\\x00\\x00\",  # Interface Handle: shall be 0 for CIP\n                self._timeout,", "        return b\"\".join(\n            (\n                bytes(4),  # Interface Handle: shall be 0 for CIP\n                self._timeout,", more=[(PB, "                UINT.encode(len(message)),\n                message,\n            ]\n        )", "                UINT.encode(len(message)),\n                message,\n            )\n        )")])
+T("C11", "rename-common", PB, "        common = self._build_common_packet_format(msg, addr_data=target_cid)\n        header = self._build_header(\n            self._encap_command, len(common), session_id, context, option\n        )\n        return header + common", "        body = self._build_common_packet_format(msg, addr_data=target_cid)\n        hdr = self._build_header(\n            self._encap_command, len(body), session_id, context, option\n        )\n        return hdr + body")
